@@ -250,6 +250,9 @@ pub fn check(c: &Case, obs: &mut Obs) -> Result<(), String> {
 #[derive(Clone, Debug, Serialize, Deserialize)]
 pub struct SetCase {
     pub vars: Vec<usize>,
+    /// the calls are made in this rotation of `vars`
+    #[serde(default)]
+    pub rot: usize,
 }
 
 fn subsets(_t: Tier) -> Box<dyn Iterator<Item = SetCase>> {
@@ -258,10 +261,14 @@ fn subsets(_t: Tier) -> Box<dyn Iterator<Item = SetCase>> {
     // every subset of the eleven required variables (2^11), with and without all optional ones
     for mask in 0u32..(1 << req.len()) {
         let mut vars: Vec<usize> = (0..req.len()).filter(|k| mask >> k & 1 == 1).map(|k| req[k]).collect();
-        out.push(SetCase { vars: vars.clone() });
+        out.push(SetCase { vars: vars.clone(), rot: (mask as usize) % vars.len().max(1) });
         if mask.count_ones() >= 10 {
+            // (nearly) complete sets: every rotation, so that each variable is the completing call
+            for rot in 0..vars.len() {
+                out.push(SetCase { vars: vars.clone(), rot });
+            }
             vars.extend((0..VARS.len()).filter(|i| !VARS[*i].2));
-            out.push(SetCase { vars });
+            out.push(SetCase { vars, rot: 0 });
         }
     }
     Box::new(out.into_iter())
@@ -271,7 +278,7 @@ pub fn check_completed(c: &SetCase, obs: &mut Obs) -> Result<(), String> {
     let mut s = Summary::new();
     // the order of the calls rotates with the case, so that every variable (also a pushed list)
     // is the completing call somewhere
-    let rot = c.vars.iter().sum::<usize>() % c.vars.len().max(1);
+    let rot = c.rot % c.vars.len().max(1);
     let order: Vec<usize> = c.vars[rot..].iter().chain(c.vars[..rot].iter()).copied().collect();
     for i in &order {
         let v = match VARS.get(*i).map(|v| v.1) {
